@@ -16,7 +16,7 @@ import time
 
 REPO = os.environ.get('VERIF_REPO', '/repo')
 VERIF = os.path.dirname(os.path.dirname(os.path.abspath(__file__)))
-CACHE = os.path.join(VERIF, '.cache')
+CACHE = os.environ.get('VERIF_CACHE_DIR') or os.path.join(VERIF, '.cache')      # AST dumps keyed by the hash of the preprocessed source + flags
 CLANG = 'clang'
 
 # Flags of the pinned build (w2c2/CMakeLists.txt, wasi/CMakeLists.txt, futex/CMakeLists.txt).
